@@ -28,3 +28,28 @@ Theorem C19_plain_text : forall o l c s, 1 <= l <= 6 -> plain_title s = true ->
   toc_entry o (Heading l c [RawText s]) = (l, s) /\ toc_entry o (SetextHeading l c [RawText s]) = (l, s).
 Proof. exact toc_entry_plain. Qed.
 Print Assumptions C19_plain_text.
+
+(* The nesting of the rebuilt list, PROVED: TocRenderer.toc writes "    " * (level - base) + "- " + title for every
+   collected heading and tokenizes the lines (model: Parser.toc_tokens = block_token.tokenize under the HTML token
+   sets, with the depth fuel Document would give - proved sufficient).  For EVERY list of headings that forms an
+   outline (first heading at the shallowest level, levels never deepen by more than one: outline_okb) with plain
+   titles (titles_okb: free of inline trigger characters and tabs, not beginning with a block-marker character, not
+   ending in white space), the tokens are exactly ONE list, nested as the forest the outline denotes:
+   flatten (forest_of hs) = hs, every item holding its title as a paragraph and its sub-headings as one tight
+   sub-list.  Any number of headings, any depth. *)
+From Mistletoe Require Import Model.Parser Spec.Outline Proofs.OutlineP Proofs.TocNest.
+Local Open Scope Z_scope.
+
+Theorem C19_nesting : forall fn hs, outline_okb hs = true -> titles_okb hs = true ->
+  flatten_forest (base_level hs) (forest_of hs) = hs /\
+  toc_tokens fn (toc_lines hs) = [List None false (map (Outline.otok 45 1 2 0) (forest_of hs))].
+Proof. exact toc_nested. Qed.
+Print Assumptions C19_nesting.
+
+Theorem C19_nesting_hypotheses :
+  let hs := [(2, $"Intro"); (3, $"Why"); (3, $"How so"); (4, $"Details"); (2, $"Usage"); (3, $"API")] in
+  outline_okb hs = true /\ titles_okb hs = true /\
+  forest_of hs = [ONode 73 $"ntro" [ONode 87 $"hy" []; ONode 72 $"ow so" [ONode 68 $"etails" []]]; ONode 85 $"sage" [ONode 65 $"PI" []]] /\
+  toc_lines hs = [ $"- Intro" ++ [10]; $"    - Why" ++ [10]; $"    - How so" ++ [10]; $"        - Details" ++ [10]; $"- Usage" ++ [10]; $"    - API" ++ [10] ].
+Proof. exact toc_instance. Qed.
+Print Assumptions C19_nesting_hypotheses.
